@@ -1,4 +1,5 @@
 """C03 — all parsers are total and memory-safe on arbitrary bytes and buffer sizes."""
+from .. import sweeps
 from ..common import Check, hx, Proc, build_worker
 from .. import jsongen
 
@@ -184,4 +185,5 @@ def run():
     c.sample({'request': lines[len(evs) + 40][:200], 'debug': wd[len(evs) + 40][:80]})
     c.extra['entry_points'] = ['Event::from_json', 'Filter::from_json', 'Tags::from_json', 'json_unescape', 'json_escape',
                                'Id/Pubkey/Sig::read_hex', 'Hll8::from_hex_string', 'Addr::try_from_bytes (direct oracle only; not modelled)']
+    sweeps.cpt_sweep(c)
     c.finish()
